@@ -38,7 +38,15 @@ func groups(tier string) []group {
 		side := side
 		for from := 0; from < 216; from += progChunk {
 			from := from
-			gs = append(gs, group{fmt.Sprintf("%s/p%d-%d", side, from, from+progChunk), func(tier string, y func(*scen) bool) { enumFlat(tier, side, from, from+progChunk, y) }})
+			gs = append(gs, group{fmt.Sprintf("%s/p%d-%d", side, from, from+progChunk), func(tier string, y func(*scen) bool) { enumFlat(tier, side, -1, from, from+progChunk, y) }})
+		}
+		// the same table on layouts whose largest id is 63, 64, 128, 256, 320, 32767 (bitmap length edges)
+		for l := range edgeIDSets {
+			l := l
+			for from := 0; from < 216; from += 72 {
+				from := from
+				gs = append(gs, group{fmt.Sprintf("%s-maxid%d/p%d-%d", side, edgeIDSets[l][2], from, from+72), func(tier string, y func(*scen) bool) { enumFlat(tier, side, l, from, from+72, y) }})
+			}
 		}
 		for from := 0; from < 216; from += 36 {
 			from := from
@@ -83,13 +91,13 @@ func genericOpts() []struct {
 	return out
 }
 
-func enumFlat(tier, side string, from, to int, yield func(*scen) bool) {
+func enumFlat(tier, side string, layout, from, to int, yield func(*scen) bool) {
 	nst := 3
 	if side != "j2t" {
 		nst = 2
 	}
 	for pi := from; pi < to; pi++ {
-		p := mkProgram(pi)
+		p := mkProgramL(pi, layout)
 		for _, po := range parseOpts() {
 			emit := func(co conv.Options, g generic.Options, on string) bool {
 				total := 1
@@ -114,6 +122,12 @@ func enumFlat(tier, side string, from, to int, yield func(*scen) bool) {
 							sc := &scen{side: side, p: p, po: po, co: co, gopt: g, optName: on, state: states, order: ord, unknown: unk}
 							if side == "j2t" {
 								sc.ks = []int{0, 1, 2, 3, 5, 8, 13}
+								if layout >= 0 {
+									sc.ks = []int{0, 3}
+								}
+							}
+							if layout >= 0 && (oi == 1 || unk) {
+								continue // edge layouts: declared order, no unknown member
 							}
 							if !yield(sc) {
 								return false
